@@ -12,6 +12,7 @@ import (
 	"seehuhn.de/go/postscript/funit"
 	"seehuhn.de/go/sfnt"
 	"seehuhn.de/go/sfnt/cff"
+	"seehuhn.de/go/sfnt/cmap"
 	"seehuhn.de/go/sfnt/glyf"
 	"seehuhn.de/go/sfnt/glyph"
 	"seehuhn.de/go/sfnt/internal/debug"
@@ -771,6 +772,29 @@ func (c rlayCase) buildFile() ([]byte, error) {
 		return nil, errors.New("bad outline kind")
 	}
 	f.InstallCMap(goCmap(c.Cmap))
+	// "maps each character through the BEST cmap subtable": decoy subtables that
+	// must not change the layout - a higher-priority record in a format the
+	// library stores but cannot interpret (the best DECODABLE subtable is then
+	// the installed one), and a lower-priority Macintosh subtable that maps
+	// the same codes to other glyphs.  Chosen from the description alone.
+	switch len(c.Cmap) % 4 {
+	case 1:
+		if _, full := f.CMapTable[cmap.Key{PlatformID: 3, EncodingID: 10}]; !full {
+			f.CMapTable[cmap.Key{PlatformID: 3, EncodingID: 10}] = []byte{0, 13, 0, 0, 0, 0, 0, 16, 0, 0, 0, 0, 0, 0, 0, 0}
+		}
+	case 2:
+		if _, full := f.CMapTable[cmap.Key{PlatformID: 0, EncodingID: 4}]; !full {
+			f.CMapTable[cmap.Key{PlatformID: 0, EncodingID: 4}] = []byte{0, 10, 0, 0, 0, 0, 0, 20, 0, 0, 0, 0, 0, 0, 0, 0, 0, 0, 0, 0}
+		}
+		fallthrough
+	case 3:
+		mac := make([]byte, 262)
+		mac[1], mac[2], mac[3] = 0, 1, 6
+		for i := 0; i < 256; i++ {
+			mac[6+i] = 1
+		}
+		f.CMapTable[cmap.Key{PlatformID: 1, EncodingID: 0}] = mac
+	}
 	f.Gdef = goGdef(c.Gdef)
 	buf := &bytes.Buffer{}
 	if _, err := f.Write(buf); err != nil {
